@@ -468,7 +468,10 @@ class Interp:
 
 _NO_NUMERIC = {"Dropout", "RandomNormal", "RandomUniform", "RandomNormalLike", "RandomUniformLike", "Multinomial", "Bernoulli",
                "If", "Loop", "Scan", "SequenceConstruct", "SequenceEmpty", "SequenceInsert", "SequenceAt", "SequenceErase",
-               "SequenceLength", "ConcatFromSequence", "SplitToSequence", "DFT", "GridSample", "GroupNormalization"}
+               "SequenceLength", "ConcatFromSequence", "SplitToSequence", "DFT", "GridSample", "GroupNormalization",
+               # the reference implementations of these do not enforce the specification's shape / index constraints
+               # (e.g. an `updates` of the wrong shape is accepted when it is empty): always use the encoded rule
+               "ScatterND", "ScatterElements", "GatherND", "GatherElements"}
 
 
 def fn_attrs_scope(fn_attrs) -> bool:
